@@ -14,7 +14,9 @@ formats of the CSV / GPX writers print it exactly on that lattice; `str(float)` 
 the shortest round-trip decimal of ANY finite double — positionally or, below `1e-4` and from `1e16`, in exponent notation
 (`reprFloat`) — and `float()` reads both (`parseDec?`, with an exponent part). That contract (`format`'s rounding of off-lattice
 values, `repr`'s choice of the shortest digits, `float()`'s correctly rounded conversion) is exercised by the correspondence
-check, not proved. -/
+check, not proved. Every file-level theorem is over lists of ANY length; `csv_file_lines` and the `…_same_number_same_order`
+theorems say so in the words of the statement (one physical line per observation; same number, same order), with examples at 5000
+observations / vertices. -/
 namespace TV.C13
 open TV.TextIO TV.ObsTime
 
@@ -537,6 +539,43 @@ theorem net_file_roundtrip (sep : Char) (hs : SepOK sep) (d : Nat) (es : List NE
     netRead ⟨0, 1, 2, 3, 4, sep, 1⟩ (netWrite sep 1 d es) = .ok (es.map (expEdge d))
     ∧ netRead ⟨0, 1, 2, 3, 4, sep, 0⟩ (netWrite sep 0 d es) = .ok (es.map (expEdge d)) :=
   TV.TextIO.net_file_roundtrip sep hs d es he
+
+/-! ### the other formats, in the words of the statement: same number, same order, for any length -/
+
+/-- a list read back as `l.map g` has the length of `l` and `g (l[i])` at every rank `i` -/
+theorem map_same_number_same_order {α β : Type} (g : α → β) (l : List α) :
+    (l.map g).length = l.length ∧ ∀ i (hi : i < l.length), (l.map g)[i]? = some (g l[i]) :=
+  ⟨List.length_map .., fun i hi => by simp [List.getElem?_map, List.getElem?_eq_getElem hi]⟩
+
+/-- **GPX, any length** `gpx_same_number_same_order`: a GPX track of ANY number of points is read back as one track with
+the same number of points, the `i`-th point read being the `i`-th point written (`expG`). -/
+theorem gpx_same_number_same_order (rf : List Tok) (hrf : ReadsIso rf) (geo : Bool) (name : Str)
+    (hname : '<' ∉ name ∧ '\n' ∉ name) (rows : List GRow) (hrows : ∀ r ∈ rows, Fits r.t) :
+    ∃ back, readGpx rf geo (gpxBody name rows) = .ok [back] ∧ back.length = rows.length ∧
+      ∀ i (hi : i < rows.length), back[i]? = some (expG rf geo rows[i]) :=
+  ⟨_, gpx_file_roundtrip rf hrf geo name hname rows hrows, map_same_number_same_order _ rows⟩
+
+/-- **network, any size** `net_same_number_same_order`: a network of ANY number of edges, each with ANY number of vertices,
+written with / without its header line and read with the matching header count: the same number of edges, the `i`-th edge
+read being the `i`-th edge written (`expEdge`: ids, end nodes, orientation, every vertex). -/
+theorem net_same_number_same_order (sep : Char) (hs : SepOK sep) (d : Nat) (es : List NEdge) (he : ∀ e ∈ es, EdgeOK sep e) :
+    ∃ back, netRead ⟨0, 1, 2, 3, 4, sep, 1⟩ (netWrite sep 1 d es) = .ok back ∧
+      netRead ⟨0, 1, 2, 3, 4, sep, 0⟩ (netWrite sep 0 d es) = .ok back ∧ back.length = es.length ∧
+      ∀ i (hi : i < es.length), back[i]? = some (expEdge d es[i]) :=
+  ⟨_, (net_file_roundtrip sep hs d es he).1, (net_file_roundtrip sep hs d es he).2, map_same_number_same_order _ es⟩
+
+/-- **WKT, any length** `wkt_same_number_same_order`: a track of ANY (non-zero) number of vertices exported by `toWKT` is
+parsed back as the same number of vertices, the `i`-th vertex parsed being the `i`-th vertex exported (`expVertex`). -/
+theorem wkt_same_number_same_order (d : Nat) (pts : List Pt) (hne : pts ≠ []) :
+    ∃ back, parseWkt (toWKT d pts) = .ok back ∧ back.length = pts.length ∧
+      ∀ i (hi : i < pts.length), back[i]? = some (expVertex d pts[i]) :=
+  ⟨_, wkt_roundtrip d pts hne, map_same_number_same_order _ pts⟩
+
+/-- non-vacuity at size: a chain of 3000 vertices / a WKT text of 5000 vertices satisfy the hypotheses -/
+example : ∃ back, parseWkt (toWKT 3 (List.replicate 5000 (⟨true, 1500⟩, ⟨false, 1000000123⟩))) = .ok back ∧ back.length = 5000 := by
+  obtain ⟨back, h, hl, _⟩ := wkt_same_number_same_order 3 (List.replicate 5000 (⟨true, 1500⟩, ⟨false, 1000000123⟩))
+    (by intro h; have := congrArg List.length h; rw [List.length_replicate] at this; exact absurd this (by decide))
+  exact ⟨back, h, by rw [hl, List.length_replicate]⟩
 
 /-! ### non-vacuity and the documented preconditions -/
 
